@@ -32,6 +32,9 @@ const (
 	whatClientFM     = "FindMissing through client and server does not return exactly the requested digests the backend lacks"
 	whatACClient     = "Action Cache client and server back to back do not behave like the backend"
 	whatReadAfterAbort = "a compressed read of a present object did not return its suffix after earlier streams were torn down"
+	whatD11          = "closing a compressed client read while the server is silent did not return"
+	whatBigClose     = "closing a partially consumed compressed read did not return"
+	whatBigFront     = "a read through the frontend did not complete after its stream failed"
 	whatAC           = "ActionCache Get/Update do not round-trip the stored message"
 	whatPanic        = "the service panicked"
 )
